@@ -74,11 +74,21 @@ fn format_level_harnesses(ctx: &mut vmc::Ctx) {
 
     let env_u32 = |k: &str| std::env::var(k).ok().and_then(|s| s.parse::<u32>().ok());
     let docs = vnd::corpus(ctx.thorough());
-    let all: Vec<RCase> = docs.iter().filter(|d| !d.big).filter_map(|d| format_level::make_rcase(&docs, d)).collect();
+    // plus, for the BGZF based formats, the same payloads with block boundaries inside the record prefixes
+    // (and, thorough, every 61 payload bytes): the format readers then see short reads from the BGZF layer
+    let mut extra: Vec<vnd::Doc> = Vec::new();
+    for d in docs.iter().filter(|d| !d.big && d.set != "empty") {
+        extra.extend(format_level::reblocked(d, None));
+        if ctx.thorough() {
+            extra.extend(format_level::reblocked(d, Some(61)));
+        }
+    }
+    let all: Vec<RCase> = docs.iter().chain(extra.iter()).filter(|d| !d.big).filter_map(|d| format_level::make_rcase(&docs, d)).collect();
     // one small document per format for the deeper bounds: the one with the most scripts, then the smallest
     let mut small: Vec<RCase> = Vec::new();
     for f in Format::ALL {
-        let mut of: Vec<&RCase> = all.iter().filter(|c| c.format == f && c.expect.iter().any(|t| t.lines.len() > 3)).collect();
+        // documents with at least two records (header, records, EOF in the first sequential trace)
+        let mut of: Vec<&RCase> = all.iter().filter(|c| c.format == f && c.scripts.iter().zip(&c.expect).any(|(s, t)| matches!(s, Script::Seq(_)) && t.lines.len() > 3) && !c.name.contains("reblocked")).collect();
         of.sort_by_key(|c| (std::cmp::Reverse(c.scripts.len()), c.bytes.len()));
         // FASTA: the CRLF document is the interesting one
         if f == Format::Fasta {
@@ -94,7 +104,7 @@ fn format_level_harnesses(ctx: &mut vmc::Ctx) {
     let choose = [PollMode::Choose];
 
     // readers
-    let bu = env_u32("C16_BU").unwrap_or(ctx.by_tier(1, 2));
+    let bu = env_u32("C16_BU").unwrap_or(ctx.by_tier(0, 1));
     ctx.harness(Config::new("fmt_reader_uniform", bu), |ch| format_level::reader_body(ch, &all, &workers, &uniform));
     let b = env_u32("C16_B").unwrap_or(ctx.by_tier(1, 2));
     ctx.harness(Config::new("fmt_reader", b), |ch| format_level::reader_body(ch, &all, &workers, &choose));
